@@ -1072,7 +1072,9 @@ def value_origins(cfg, nid, expr, params=(), _depth=0):
             if nid in cfg.reach([cfg.entry.id], avoid=writers):
                 out.append((cfg.entry.id, expr))
         if not ds and not out:
-            return None
+            # never bound in this function: a global / module constant is its own origin
+            bound_here = any(expr.id in node_local_writes(n) for n in cfg.nodes)
+            return None if bound_here else [(nid, expr)]
         for d in ds:
             st = cfg.nodes[d].stmt
             if not (isinstance(st, (ast.Assign, ast.AnnAssign)) and getattr(st, "value", None) is not None):
